@@ -1,5 +1,6 @@
 """C13 - linear ticks are round, evenly spaced, complete, in-domain, uniquely labelled."""
 import math
+from fractions import Fraction
 
 from mc import lingrid
 from mc.core import Acc, Hang, horizon
@@ -7,11 +8,11 @@ from mc.core import Acc, Hang, horizon
 ID = "C13"
 RULE = ("E-INPUT: every ordered pair of end points from {0, +-m x 10^e : m in 11 mantissas, e in -6..9 (quick: step 3)} that "
         "meets the statement's span conditions, plus a seeded mantissa set, x m in 1..100 and the default, through the real "
-        "LinearScale().domain(..).ticks(m)/tickFormat(m). Oracle: step of form {1,2,5}x10^k, increasing, equal gaps, multiples "
+        "LinearScale().domain(..).ticks(m)/tickFormat(m); on every 5th domain also call sequences on one live scale (ticks, nice, ticks / ticks, domain, ticks / ticks, copy, nice) judged against the domain the scale then reports. Oracle: step of form {1,2,5}x10^k, increasing, equal gaps, multiples "
         "of the step, inside the domain, complete at both ends, count bounds, distinct texts that read back. "
         "Non-trivial: >= 2 ticks.")
 ASSUMPTIONS = ["float tolerances: 1e-6 of a step for gap equality/multiples/completeness, 1e-9 step for in-domain, 1e-3 step for read-back"]
-REQUIRED_COUNTERS = ("tick_sets", "reversed_domains", "step_1", "step_2", "step_5")
+REQUIRED_COUNTERS = ("tick_sets", "reversed_domains", "step_1", "step_2", "step_5", "history_sequences")
 EPS = 2.220446049250313e-16
 
 
@@ -19,11 +20,12 @@ def bounds(tier, seed):
     return {"values": len(lingrid.values(tier)), "m": "1..100 + default", "seeded_values": lingrid.seeded_values(seed)[:5]}
 
 
-def judge(a, b, m, acc=None):
+def judge(a, b, m, acc=None, scale=None):
+    """scale: a live scale (history slice) whose reported domain is [a, b]; None = a fresh scale."""
     from labella.scale import LinearScale
     try:
         with horizon(10.0):
-            s = LinearScale().domain([a, b])
+            s = LinearScale().domain([a, b]) if scale is None else scale
             tk = [float(t) for t in s.ticks(m)]
             fmt = s.tickFormat(m)
             texts = [fmt(t) for t in tk]
@@ -34,7 +36,7 @@ def judge(a, b, m, acc=None):
     mm = 10 if m is None else m
     lo, hi = min(a, b), max(a, b)
     n = len(tk)
-    where = "ticks(%r) on [%r, %r]" % (m, a, b)
+    where = "ticks(%r) on [%r, %r]%s" % (m, a, b, "" if scale is None else " (live scale, after earlier ticks/nice/domain calls)")
     if acc is not None:
         acc.counters["tick_sets"] += 1
         if a > b:
@@ -64,7 +66,12 @@ def judge(a, b, m, acc=None):
     if acc is not None:
         acc.counters["step_%d" % (1 if lead == 10 else lead)] += 1
     mag = max(abs(lo), abs(hi))
-    tol = 1e-6 * step + 8 * EPS * mag * n
+    # from here on use the exact step lead x 10^k (correctly rounded), not the measured mean gap: the
+    # measured value carries the float error of the end ticks, which a quotient of 1e5 would amplify.
+    # Float allowance: the generator accumulates n additions at magnitude mag.
+    step = float(Fraction(1 if lead == 10 else lead) * Fraction(10) ** (k + 1 if lead == 10 else k))
+    fl = 2 * EPS * mag * (n + 4)
+    tol = 1e-6 * step + fl
     for x, y in zip(tk, tk[1:]):
         if abs((y - x) - step) > tol:
             return "C13:uneven", "%s: gap %r vs step %r" % (where, y - x, step)
@@ -72,7 +79,7 @@ def judge(a, b, m, acc=None):
         q = t / step
         if abs(q - round(q)) * step > tol:
             return "C13:not-multiple", "%s: tick %r is not a multiple of the step %r" % (where, t, step)
-    tin = 1e-9 * step + 8 * EPS * mag
+    tin = 1e-9 * step + fl
     if tk[0] < lo - tin or tk[-1] > hi + tin:
         return "C13:outside-domain", "%s: first %r last %r" % (where, tk[0], tk[-1])
     if tk[0] - step >= lo + tol or tk[-1] + step <= hi - tol:
@@ -83,8 +90,56 @@ def judge(a, b, m, acc=None):
             v = float(txt)
         except ValueError:
             return "C13:label-unreadable", "%s: label %r of tick %r" % (where, txt, t)
-        if abs(v - t) > 1e-3 * step + 8 * EPS * mag * n:
+        if abs(v - t) > 1e-3 * step + fl:
             return "C13:label-wrong", "%s: label %r reads back as %r for tick %r (step %r)" % (where, txt, v, t, step)
+    return None
+
+
+HIST_MS = (None, 2, 5, 10)
+
+
+def history_cases(a, b):
+    """Call sequences on ONE scale; the last ticks() must be right for the domain the scale then reports."""
+    from labella.scale import LinearScale
+    for m in HIST_MS:
+        for m2 in (None, 3):
+            yield ("ticks-nice-ticks", m, m2)
+        yield ("ticks-domain-ticks", m, None)
+        yield ("ticks-copy-nice", m, None)
+
+
+def run_history(a, b, kind, m, m2):
+    from labella.scale import LinearScale
+    if kind == "ticks-nice-ticks":
+        s = LinearScale().domain([a, b])
+        list(s.ticks(m))
+        s.nice(m2) if m2 is not None else s.nice()
+        return [s]
+    if kind == "ticks-domain-ticks":
+        s = LinearScale().domain([b * 3 + 1, a - 7])
+        list(s.ticks(m))
+        s.tickFormat(m)
+        s.domain([a, b])
+        return [s]
+    s = LinearScale().domain([a, b])
+    list(s.ticks(m))
+    c = s.copy()
+    s.nice()
+    return [s, c]
+
+
+def judge_history(a, b, kind, m, m2, acc=None):
+    try:
+        scales = run_history(a, b, kind, m, m2)
+    except Exception as e:
+        return "EXC:" + type(e).__name__, "%s on [%r, %r] raised %r" % (kind, a, b, e)
+    for s in scales:
+        d = s.domain()
+        if d[0] == d[1]:
+            continue
+        bad = judge(float(d[0]), float(d[1]), m, acc, scale=s)
+        if bad:
+            return bad[0], "%s: %s" % (kind, bad[1])
     return None
 
 
@@ -108,11 +163,21 @@ def run_shard(shard):
             acc.trans += 1
             if bad:
                 acc.violation({"a": a, "b": b, "m": m}, bad[0], bad[1], order=(0 if shard["vals"] == "grid" else 1, i, m or 0))
+        if i % 5 == 0:  # history slice on every 5th domain
+            for kind, m, m2 in history_cases(a, b):
+                bad = judge_history(a, b, kind, m, m2, acc)
+                acc.evals += 1
+                acc.trans += 1
+                acc.counters["history_sequences"] += 1
+                if bad:
+                    acc.violation({"a": a, "b": b, "m": m, "hist": kind, "m2": m2}, bad[0], bad[1], order=(2, i, m or 0))
     acc.sample({"a": a, "b": b, "m": 7})
     return acc
 
 
 def replay(case):
+    if case.get("hist"):
+        return judge_history(case["a"], case["b"], case["hist"], case["m"], case.get("m2"))
     return judge(case["a"], case["b"], case["m"])
 
 
